@@ -13,10 +13,14 @@ import DdoModel.Examples.McpModel
   position per string, each no larger than the position of EVERY merged state (in whatever order they are given) and than
   the length of the string; `relax_id` (**proved**): `relax` returns the cost unchanged;
 * `mergeOkAt_of_le` (**proved**): since `relax` is the identity, `MergeOk` at `(u, m)` follows from `H(u) ≤ H(m)`;
-* stated, not proved (`def … : Prop`), all evaluated pointwise by the driver on every generated instance of the domain:
+* stated here as `def … : Prop` (full strength, also evaluated pointwise by the driver on every generated instance of the
+  domain) and **all proved** in `LcsProofs*.lean` (summary and `#print axioms`: `LcsProofsMain.lean`):
   `BestRemAntitoneStmt` (a state that is position-wise no further than another has a value-to-go at least as large — the
-  fact behind both the merge operator and the dominance rule), `RubAdmissibleStmt`, `MergeOkStmt`, `DominanceOkStmt`,
-  `DpExactStmt`. -/
+  fact behind both the merge operator and the dominance rule; theorem `bestRemAntitone`), `MergeOkStmt` (`mergeOk`),
+  `RubAdmissibleStmt` (`rubAdmissible`), `DominanceOkStmt` (`dominanceOk`), `DpExactStmt` (`dpExact`).  The key fact is
+  `bestRem_spec`: the value-to-go of a valid state is the length of a longest common subsequence of the suffixes the state
+  points at.  `LcsProofsWf.lean` / `LcsProofsMain.lean`: the `WfRel` instance and the corollaries `lcs_relaxed_ub` (clean
+  diagram) and `lcs_relaxed_ub_pooled` (pooled diagram with long arcs, the one the example ships with). -/
 namespace Ddo.Examples.LcsModel
 open Ddo Ddo.Examples Ddo.Examples.Util
 
@@ -174,7 +178,7 @@ theorem mergeOkAt_of_le {u m : St} (c : Int) (h : bestRem I u ≤ bestRem I m) :
       omega
 
 -- ------------------------------------------------------------------------------------------------------------------
--- stated, not proved: what the driver evaluates pointwise on every generated case
+-- the statements (what the driver evaluates pointwise on every generated case); proved in `LcsProofs*.lean`
 
 /-- the instances the statements are about: what the reader builds from a file of the domain -/
 def InstOk (k declared : Nat) (lines : List (List Int)) (J : Inst) : Prop :=
@@ -183,31 +187,31 @@ def InstOk (k declared : Nat) (lines : List (List Int)) (J : Inst) : Prop :=
 /-- `u` is position by position no further than `v` -/
 def PosLe (u v : St) : Prop := u.length = v.length ∧ ∀ (i a b : Nat), u[i]? = some a → v[i]? = some b → a ≤ b
 
-/-- (stated) the value-to-go is antitone in the positions: the fact behind the merge operator and the dominance rule -/
+/-- (proved: `bestRemAntitone`) the value-to-go is antitone in the positions: the fact behind the merge operator and the dominance rule -/
 def BestRemAntitoneStmt : Prop :=
   ∀ (k declared : Nat) (lines : List (List Int)) (J : Inst), InstOk k declared lines J →
     ∀ u m : St, validB J u = true → validB J m = true → PosLe m u → bestRem J u ≤ bestRem J m
 
-/-- `RubOk` (stated): the rough upper bound dominates the value-to-go of every valid state (reachable or not) -/
+/-- `RubOk` (proved: `rubAdmissible`): the rough upper bound dominates the value-to-go of every valid state (reachable or not) -/
 def RubAdmissibleStmt : Prop :=
   ∀ (k declared : Nat) (lines : List (List Int)) (J : Inst), InstOk k declared lines J →
     ∀ s : St, validB J s = true → bestRem J s ≤ some ((relaxation J).rub s)
 
-/-- `MergeOk` (stated, potential form): for every merged-away state `u` of a list `X` of valid states, an arc of cost `c`
+/-- `MergeOk` (proved: `mergeOk`; potential form): for every merged-away state `u` of a list `X` of valid states, an arc of cost `c`
     into `u` and the cost `r` it is relaxed to: `c + H(u) ≤ r + H(merge X)` -/
 def MergeOkStmt : Prop :=
   ∀ (k declared : Nat) (lines : List (List Int)) (J : Inst), InstOk k declared lines J →
     ∀ (X : List St) (u m src : St) (d : Dec) (c : Int), (∀ s ∈ X, validB J s = true) → u ∈ X → merge? J X = some m →
       mergeOkAt J u m c ((relaxation J).relax src u m d c) = true
 
-/-- (stated) the dominance rule is admissible: a verdict of `partial_cmp` on two valid states of one key orders what the
+/-- (proved: `dominanceOk`) the dominance rule is admissible: a verdict of `partial_cmp` on two valid states of one key orders what the
     two states can still reach -/
 def DominanceOkStmt : Prop :=
   ∀ (k declared : Nat) (lines : List (List Int)) (J : Inst), InstOk k declared lines J →
     ∀ (a b : St) (va vb : Int) (o : Ordering) (ovd : Bool), validB J a = true → validB J b = true →
       domRule.key a = domRule.key b → domRule.partialCmp a va b vb = some (o, ovd) → domOkAt J a va b vb o = true
 
-/-- exactness of the DP model (stated): along any path of the model from the root (long arcs or not), value + value-to-go
+/-- exactness of the DP model (proved: `dpExact`): along any path of the model from the root (long arcs or not), value + value-to-go
     is the length of the longest common subsequence of the specification among those that begin with the characters taken -/
 def DpExactStmt : Prop :=
   ∀ (k declared : Nat) (lines : List (List Int)) (J : Inst), InstOk k declared lines J →
